@@ -3,4 +3,4 @@
 From Coq Require Import ExtrOcamlBasic.
 From Dznpy Require Import Base.Sexp Run.Dispatch.
 Extraction Language OCaml.
-Extraction "model.ml" Dispatch.run.
+Extraction "model.ml" Dispatch.dispatch.
